@@ -34,10 +34,11 @@ def main():
 
     cases, cdesc, raws, chains, chdesc, pcases, pdesc, tcases, tdesc = [], [], [], [], [], [], [], [], []
     infos = []
-    for profile, n in sizes + [("express", 60 if thorough else 12)]:
-        mtype = "EXPRESS" if profile == "express" else "STANDARD"
+    # (express_children: an EXPRESS parent whose Task states launch a STANDARD child - the parent stores nothing, the child everything)
+    for profile, n in sizes + [("express", 60 if thorough else 12), ("express_children", 40 if thorough else 10)]:
+        mtype = "EXPRESS" if profile.startswith("express") else "STANDARD"
         for _ in range(n):
-            info = eg.gen_runs(rng, tmpd, 1, "seq" if profile == "express" else profile, thorough=thorough, mtype=mtype)[0]
+            info = eg.gen_runs(rng, tmpd, 1, "seq" if profile == "express" else "children" if profile == "express_children" else profile, thorough=thorough, mtype=mtype)[0]
             info.profile = profile
             infos.append(info)
             inst = info.world.instances["i1"]
@@ -118,7 +119,7 @@ def main():
         for f, idx in r.items():
             for i in idx[:3]:
                 d = desc(tdesc[i])
-                if tdesc[i].profile == "express":
+                if tdesc[i].profile.startswith("express"):
                     continue
                 kf = ck.finding_for(d, [F22])
                 if kf:
